@@ -171,6 +171,29 @@ let () =
          let strs = L.map (fun ((o, ids), v) ->
            (match o with AbsBag.BOk -> "ok" | AbsBag.BWrong -> "XMLChildContainerWrongElementError") ^ ";" ^ ints (L.map int_of_nat ids) ^ ";" ^ (if v then "1" else "0")) tr in
          print_endline (S.concat " | " strs))
+    | "doc" :: toks ->
+      (* doc := <tag> ( doc* )   with numeric tags; answer: NOMACHINE <tag> | NOPARSE | NOEMIT | the emitted document in the same form *)
+      let st = ref toks in
+      let next () = match !st with [] -> failwith "eof" | h :: t -> st := t; h in
+      let peek () = match !st with [] -> "" | h :: _ -> h in
+      let rec pdoc () =
+        let tag = int_of_string (next ()) in
+        if next () <> "(" then failwith "expected (";
+        let rec kids () = if peek () = ")" then (ignore (next ()); []) else let k = pdoc () in k :: kids () in
+        Doc.XNode (pos_of_int tag, kids ()) in
+      let d = pdoc () in
+      let rec tags (Doc.XNode (t, k)) = t :: L.concat (L.map tags k) in
+      (match L.find_opt (fun t -> DocTables.elem_tpl t = None) (tags d) with
+       | Some t -> print_endline ("NOMACHINE " ^ string_of_int (int_of_pos t))
+       | None ->
+         (match DocTables.doc_parse d with
+          | None -> print_endline "NOPARSE"
+          | Some e ->
+            (match DocTables.doc_emit e with
+             | None -> print_endline "NOEMIT"
+             | Some d' ->
+               let rec show (Doc.XNode (t, k)) = string_of_int (int_of_pos t) ^ " ( " ^ S.concat "" (L.map (fun x -> show x ^ " ") k) ^ ")" in
+               print_endline (show d'))))
     | "cho" :: t :: ops ->
       let p = templates.(int_of_string t) in
       (match ChoiceClass.slots_of p with
